@@ -107,6 +107,13 @@ WList ==
   /\ hist' = Append(hist, Step("list", "-", None))
   /\ UNCHANGED <<objs, log, cache, initSeen, view, viewSeen, nwrites, nfaults, nbooks>>
 
+\* the LIST is answered with a server error (HTTP 500): the watcher starts over (Init again) after its back-off; nothing was observed
+WListFail ==
+  /\ CanStep /\ nfaults < MaxFaults /\ wpc = "InitPage"
+  /\ wpc' = "Empty"
+  /\ nfaults' = nfaults + 1 /\ hist' = Append(hist, Step("listfail", "-", None))
+  /\ UNCHANGED <<objs, log, conn, sent, wire, crv, q, cache, initSeen, view, viewSeen, nwrites, nbooks>>
+
 \* the server writes the next change event to the watch connection (entries of other resources are skipped)
 WSend ==
   /\ wpc = "Watching" /\ conn = "open" /\ sent < Len(log)
@@ -208,7 +215,7 @@ HDelete ==
 Next ==
   \/ \E n \in Names, sh \in Shapes : ApiCreate(n, sh) \/ ApiModify(n, sh)
   \/ \E n \in Names : ApiDelete(n)
-  \/ WInit \/ WList \/ WSend \/ WRecv \/ Bookmark \/ WExpire
+  \/ WInit \/ WList \/ WListFail \/ WSend \/ WRecv \/ Bookmark \/ WExpire
   \/ \E how \in {"reset", "eof"} : WDrop(how)
   \/ HInit \/ HInitApply \/ HInitDone \/ HApply \/ HDelete
 Spec == Init /\ [][Next]_vars
